@@ -6,6 +6,7 @@ import (
 	"runtime"
 	"strconv"
 	"strings"
+	"sync"
 
 	"github.com/robertkrimen/otto"
 
@@ -255,7 +256,7 @@ func newVM(h *host, limit int) (*otto.Otto, error) {
 			return nil, err
 		}
 	}
-	if _, err := vm.Run(preludeScript); err != nil {
+	if _, err := vm.Run(preludeScript.get()); err != nil {
 		return nil, err
 	}
 	if limit != 0 {
@@ -651,7 +652,7 @@ func headroom(vm *otto.Otto, restore int) string {
 			runtime.Goexit()
 		}
 	})
-	out := guarded(func() (otto.Value, error) { return vm.Run(headroomScript) })
+	out := guarded(func() (otto.Value, error) { return vm.Run(headroomScript.get()) })
 	otto.VerifSetStepHook(vm, nil)
 	vm.SetStackDepthLimit(restore)
 	res := fmt.Sprintf("headroom(limit %d)=%s", headroomLimit, out.outcome(nil))
@@ -669,7 +670,7 @@ func (s *session) followUp(before string) string {
 			runtime.Goexit()
 		}
 	})
-	out := guarded(func() (otto.Value, error) { return vm.Run(followUpScript) })
+	out := guarded(func() (otto.Value, error) { return vm.Run(followUpScript.get()) })
 	otto.VerifSetStepHook(vm, nil)
 	res := out.outcome(nil)
 	res += restSuffix(vm)
@@ -683,7 +684,7 @@ func (s *session) followUp(before string) string {
 // reset puts the tracked globals back so that P can be run a second time.
 func (s *session) reset() error {
 	s.vm.Interrupt = nil
-	_, err := s.vm.Run(resetScript)
+	_, err := s.vm.Run(resetScript.get())
 	return err
 }
 
@@ -697,11 +698,27 @@ func compile(src string) *otto.Script {
 	return sc
 }
 
+// lazyScript compiles its source on first use: nothing of otto runs at package
+// initialisation, so a parser defect in the tree under test surfaces inside a worker (with
+// crash attribution) and cannot take down the supervisor or the other checks of the binary.
+type lazyScript struct {
+	src  string
+	once sync.Once
+	sc   *otto.Script
+}
+
+func lazy(src string) *lazyScript { return &lazyScript{src: src} }
+
+func (l *lazyScript) get() *otto.Script {
+	l.once.Do(func() { l.sc = compile(l.src) })
+	return l.sc
+}
+
 var (
-	followUpScript = compile(followUpSrc)
-	headroomScript = compile(headroomSrc)
-	resetScript    = compile(resetSrc)
-	preludeScript  = compile(preludeSrc)
+	followUpScript = lazy(followUpSrc)
+	headroomScript = lazy(headroomSrc)
+	resetScript    = lazy(resetSrc)
+	preludeScript  = lazy(preludeSrc)
 )
 
 func (p *prog) script() *otto.Script {
